@@ -31,6 +31,34 @@ class _CoreFromSource(importlib.abc.MetaPathFinder):
 
 
 _loaded = None
+_scratch = None
+
+
+def _build_compiled(repo):
+    """Cythonize the working tree's bt/core.py in a scratch directory (outside
+    /repo and /verif) and return that directory; removed at interpreter exit."""
+    import atexit
+    import shutil
+    import subprocess
+    import tempfile
+
+    global _scratch
+    d = tempfile.mkdtemp(prefix="btverif-build-", dir=os.environ.get("TMPDIR", "/tmp"))
+    _scratch = d
+    atexit.register(lambda: shutil.rmtree(d, ignore_errors=True) if os.getpid() == _owner else None)
+    os.makedirs(os.path.join(d, "bt"))
+    for f in ("__init__.py", "core.py", "algos.py", "backtest.py"):
+        shutil.copy(os.path.join(repo, "bt", f), os.path.join(d, "bt", f))
+    for f in ("setup.py", "README.md"):
+        if os.path.exists(os.path.join(repo, f)):
+            shutil.copy(os.path.join(repo, f), os.path.join(d, f))
+    p = subprocess.run([sys.executable, "setup.py", "build_ext", "--inplace"], cwd=d, capture_output=True, text=True)
+    if p.returncode != 0:
+        raise RuntimeError("compiled build failed:\n" + p.stdout[-1500:] + p.stderr[-1500:])
+    return d
+
+
+_owner = os.getpid()
 
 
 def load(repo=None):
@@ -42,18 +70,27 @@ def load(repo=None):
     sys.dont_write_bytecode = True
     for k in [k for k in sys.modules if k == "bt" or k.startswith("bt.")]:
         del sys.modules[k]
-    sys.meta_path.insert(0, _CoreFromSource(repo))
-    if repo in sys.path:
-        sys.path.remove(repo)
-    sys.path.insert(0, repo)
+    compiled = os.environ.get("BT_VERIF_BUILD") == "compiled"
+    if compiled:
+        # the Cython build of the working tree's sources, made fresh for this run
+        src = _build_compiled(repo)
+    else:
+        src = repo
+        sys.meta_path.insert(0, _CoreFromSource(repo))
+    if src in sys.path:
+        sys.path.remove(src)
+    sys.path.insert(0, src)
     import warnings
 
     warnings.filterwarnings("ignore")
     os.environ.setdefault("MPLBACKEND", "Agg")
     bt = importlib.import_module("bt")
     core = importlib.import_module("bt.core")
-    assert core.__file__.endswith("core.py"), core.__file__
-    assert os.path.realpath(bt.__file__).startswith(os.path.realpath(repo)), bt.__file__
+    if compiled:
+        assert core.__file__.endswith(".so") and os.path.realpath(core.__file__).startswith(os.path.realpath(src)), core.__file__
+    else:
+        assert core.__file__.endswith("core.py"), core.__file__
+        assert os.path.realpath(bt.__file__).startswith(os.path.realpath(repo)), bt.__file__
     _loaded = bt
     return bt
 
@@ -71,4 +108,5 @@ def source_info(repo=None):
     out["numpy"] = numpy.__version__
     out["python"] = sys.version.split()[0]
     out["repo"] = repo
+    out["build"] = "compiled" if os.environ.get("BT_VERIF_BUILD") == "compiled" else "interpreted"
     return out
